@@ -1,6 +1,6 @@
 (* line-protocol commands of the FLAC family model (Model.Fam_flac)
    tokens:  bytes  x<hex>            blocks  code/ovf/x<hex>,...  ("-" = empty list)
-            comments  x<key>=x<val>,...  ("-" = none)      padding mode  default | keep | c<hex>
+            comments  x<key>=x<val>,...  ("-" = none)      padding mode  none | default | keep | c<hex>
             tags      <vendor-bytes> <comments>  or  none -           *)
 open Common
 open Py
@@ -33,9 +33,10 @@ let cb_of mode =
 (* the callback is wrapped so that the reply can report what it was called with (info.padding, info.size) *)
 let seen : (BinNums.coq_Z * BinNums.coq_Z) option ref = ref None
 let opts_of mode did3 =
-  let cb = cb_of mode in
   seen := None;
-  { o_cb = (fun p s -> seen := Some (p, s); cb p s); o_deleteid3 = bool_of_string did3 }
+  if mode = "none" then { o_cb = None; o_deleteid3 = bool_of_string did3 } else
+  let cb = cb_of mode in
+  { o_cb = Some (fun p s -> seen := Some (p, s); cb p s); o_deleteid3 = bool_of_string did3 }
 let seen_string () = match !seen with None -> "- -" | Some (p, s) -> string_of_z p ^ " " ^ string_of_z s
 let tags_of vendor cs = if vendor = "none" then None else Some { vendor = bytes_of_hex vendor; comments = comments_of cs }
 
